@@ -11,7 +11,7 @@
    empty (or cut) text is not a record (json.Unmarshal: "unexpected end of JSON input").  The
    model therefore uses its own small self-delimiting encoding into a list of cells ([N], not
    restricted to 0..255) with exactly these two properties ([parse_encode], [parse_nil] in
-   Proofs/Crash.v); no statement depends on its details. *)
+   Proofs/Status.v); no statement depends on its details. *)
 From Receptor Require Export Base.Hex.
 Open Scope N_scope.
 
